@@ -152,6 +152,59 @@ def initUpdate (current_init : List (List α)) (n_original_samples : Nat) (indic
       current_init) current_init
   current_init
 
+/-- `compute_membership_strengths` (umap/umap_.py:400) -/
+def computeMembershipStrengths (T : Transc α) (knn_indices : List (List Int)) (knn_dists : List (List α)) (sigmas : List α) (rhos : List α) (return_dists : Bool) (bipartite : Bool) : (List Int) × (List Int) × (List α) × (List α) :=
+  let n_samples : Nat := knn_indices.length
+  let n_neighbors : Nat := ((knn_indices).getD 0 []).length
+  let rows : List Int := (List.replicate ((knn_indices).length * ((knn_indices).getD 0 []).length) (0 : Int))
+  let cols : List Int := (List.replicate ((knn_indices).length * ((knn_indices).getD 0 []).length) (0 : Int))
+  let vals : List α := (List.replicate ((knn_indices).length * ((knn_indices).getD 0 []).length) (0 : α))
+  let dists := (
+    if return_dists then
+      let dists : List α := (List.replicate ((knn_indices).length * ((knn_indices).getD 0 []).length) (0 : α))
+      dists
+    else
+      let dists : List α := ([] : List α)
+      dists)
+  let (rows, cols, vals, dists) := (List.range n_samples).foldl (fun (st : (List Int) × (List Int) × (List α) × (List α)) (i : Nat) =>
+      let rows := st.1
+      let cols := st.2.1
+      let vals := st.2.2.1
+      let dists := st.2.2.2
+      let (rows, cols, vals, dists) := (List.range n_neighbors).foldl (fun (st : (List Int) × (List Int) × (List α) × (List α)) (j : Nat) =>
+          let rows := st.1
+          let cols := st.2.1
+          let vals := st.2.2.1
+          let dists := st.2.2.2
+          if (((knn_indices.getD i []).getD j 0) == (-1 : Int)) then
+            (rows, cols, vals, dists)
+          else
+            let val := (
+              if ((!bipartite) && (((knn_indices.getD i []).getD j 0) == ((i : Nat) : Int))) then
+                let val : α := 0
+                val
+              else
+                let val := (
+                  if ((decide ((((knn_dists.getD i []).getD j 0) - (rhos.getD i 0)) ≤ 0)) || (eqV (sigmas.getD i 0) 0)) then
+                    let val : α := 1
+                    val
+                  else
+                    let val : α := (T.exp (-((((knn_dists.getD i []).getD j 0) - (rhos.getD i 0)) / (sigmas.getD i 0))))
+                    val)
+                val)
+            let rows := rows.set ((i * n_neighbors) + j) ((i : Nat) : Int)
+            let cols := cols.set ((i * n_neighbors) + j) ((knn_indices.getD i []).getD j 0)
+            let vals := vals.set ((i * n_neighbors) + j) val
+            let dists := (
+              if return_dists then
+                let dists := dists.set ((i * n_neighbors) + j) ((knn_dists.getD i []).getD j 0)
+                dists
+              else
+                dists)
+            (rows, cols, vals, dists)) (rows, cols, vals, dists)
+      (rows, cols, vals, dists)) (rows, cols, vals, dists)
+  (rows, cols, vals, dists)
+
 end
 end SrcUmap
 end Umap
